@@ -19,9 +19,11 @@ SPEC = {
         ' T2.seek: SpooledStringIO.seek moves byte and code-point position together.'),
     'decided': ['seek moves both components', 'flush before descriptor-level size query', 'observer restore of every disturbed position component', '_tell counts code points', 'rollover ordering',
                 'MultiFileReader.seek resets index and all files', 'abstract API completeness'],
-    'declined': ['behavioural equality with io classes', 'seek arithmetic', 'codec read-ahead'],
+    'declined': ['behavioural equality with io classes', 'seek arithmetic', 'codec read-ahead beyond the observers (rollover after readline)'],
     'trusted_base': ['io file object seek/tell semantics'], 'assumptions': [], 'exhaustive': True,
 }
+SPEC['explanation'] += ' T8r (string class): a raw byte position from buffer.tell() saves nothing, because the decoder on top of the byte stream reads ahead; the position is restored by a code-point seek to the saved _tell.'
+SPEC['decided'] += ['decoder read-ahead: no raw-position restore in the string class']
 MANIFEST = {
     'technique': 'save/disturb/restore typestate over all CFG paths per position component; unit (code point vs byte) qualifier check; ordering and reset-completeness checks',
     'text': ('Decides necessary structural conditions of C18: read-only queries leave both position components where they '
